@@ -419,22 +419,14 @@ fn claims_step(n: usize) {
     std::mem::forget(r);
 }
 
-fn reserve_never_increases(bits: u32) {
-    reserve_step(bits, 0);
-    reserve_step(bits, 1);
-    reserve_step(bits, 2);
-}
-
+/// `reserve_balances(n, d)` on a bank with exactly `tokens` tokens, all operands below `2^bits`.
 fn reserve_step(bits: u32, tokens: usize) {
     let bound: u64 = (1u64 << bits) - 1;
     let (mut bank, m) = any_bank(tokens, bound);
     let n: u128 = kani::any();
     let d: u128 = kani::any();
     kani::assume(n <= bound as u128 && d <= bound as u128);
-    let p: u8 = kani::any();
     let r = hooks::reserve_balances(&mut bank, &n, &d);
-    let got = read_balance(&bank, p);
-    let old = m.find(p).map(|i| m.amounts[i]);
     let mut any_nonzero = false;
     let mut i = 0;
     while i < MAXN {
@@ -443,39 +435,46 @@ fn reserve_step(bits: u32, tokens: usize) {
     }
     if r.is_ok() {
         assert!(n <= d, "C37: reserve proportion above 1 accepted");
-        match (old, got) {
-            (Some(a), Some(b)) => {
+    } else {
+        // refused: proportion above 1, or 0/0 with something to reserve
+        assert!(n > d || (d == 0 && any_nonzero), "C37: valid reserve refused");
+    }
+    let mut i = 0;
+    while i < MAXN {
+        if i < m.n {
+            let a = m.amounts[i];
+            let got = read_balance(&bank, m.keys[i]);
+            assert!(got.is_some(), "C37: reserve removed a token");
+            let b = got.unwrap();
+            if r.is_ok() {
                 assert!(b <= a, "C37: reserve increased a balance");
                 if a != 0 {
-                    // b == floor(a * n / d): 0 <= a*n - b*d < d (no wrap below 2^32 each)
-                    let an = a as u128 * n;
-                    let bd = b as u128 * d;
-                    assert!(bd <= an && an - bd < d, "C37: reserved balance is not floor(balance * n / d)");
+                    // b == floor(a * n / d): 0 <= a*n - b*d < d (all below 2^32: no wrap in u64)
+                    let an = a * (n as u64);
+                    let bd = b * (d as u64);
+                    assert!(bd <= an && an - bd < d as u64, "C37: reserved balance is not floor(balance * n / d)");
                 } else {
                     assert!(b == 0);
                 }
+                kani::cover!(b < a && b > 0);
+                kani::cover!(b == 0 && a != 0 && n > 0); // rounds down to zero
+                kani::cover!(n == d && b == a && a > 0);
+            } else {
+                assert!(b == a, "C37: failed reserve changed a balance");
             }
-            (None, None) => {}
-            _ => assert!(false, "C37: reserve added or removed a token"),
         }
-    } else {
-        // refused: proportion above 1, or 0/0 with something to reserve; nothing changes
-        assert!(n > d || (d == 0 && any_nonzero), "C37: valid reserve refused");
-        assert!(got == old, "C37: failed reserve changed a balance");
+        i += 1;
     }
     assert!(bank.num_tokens() == m.n && hooks::remaining_confirmed_gt_amount(&bank) == m.remaining);
-    kani::cover!(r.is_ok() && m.n == 2 && old.is_some() && got != old);
-    kani::cover!(r.is_ok() && n == d && d > 0 && old.is_some() && old != Some(0));
-    kani::cover!(r.is_ok() && old.is_some() && got == Some(0) && old != Some(0) && n > 0); // rounds down to zero
     kani::cover!(r.is_err() && n > d);
     kani::cover!(r.is_err() && d == 0);
     std::mem::forget(r);
 }
 
 //@ prop=C37 tier=quick kind=hold
-//@ enc=GtBank::reserve_balances (via verif_hooks), <u128 as MulDiv>::checked_mul_div (ruint U256), TokenBalances::entries_mut, GtBank::balances
-//@ bound=banks with 0..=2 tokens, balances < 2^8, numerator and denominator < 2^8 (any order, incl. 0), arbitrary probe token; unwind 34
-//@ stubs=alloc::fmt::format, sol_log, CoreError::name, Display for CoreError / u64 / u128 do nothing
+//@ enc=GtBank::reserve_balances (via verif_hooks), TokenBalances::entries_mut
+//@ bound=banks with exactly 1 token(s), balances < 2^8, numerator and denominator < 2^8 (any order, incl. 0); every entry read back; unwind 34
+//@ stubs=<u128 as MulDiv>::checked_mul_div (ruint U256; its division by a symbolic divisor does not finish in symbolic execution) is replaced by its specification floor(x*n/d) computed in u64 (defined for operands < 2^32; exactness of the real routine is C01); alloc::fmt::format, sol_log, CoreError::name, Display/to_string for CoreError / u64 / u128 do nothing
 //@ args=--default-unwind,34
 #[kani::proof]
 #[kani::stub(alloc::fmt::format, crate::stubs::fmt_format)]
@@ -486,14 +485,34 @@ fn reserve_step(bits: u32, tokens: usize) {
 #[kani::stub(u128::_fmt, crate::stubs::u128_fmt)]
 #[kani::stub(<u64 as std::fmt::Display>::fmt, crate::stubs::fmt_u64)]
 #[kani::stub(u64::_fmt, crate::stubs::u64_fmt)]
-fn c37_reserve_never_increases_a_balance_w8() {
-    reserve_never_increases(8);
+#[kani::stub(<u128 as gmsol_model::num::MulDiv>::checked_mul_div, crate::stubs::mul_div_spec)]
+fn c37_reserve_never_increases_a_balance_1_token_w8() {
+    reserve_step(8, 1);
+}
+
+//@ prop=C37 tier=quick kind=hold
+//@ enc=GtBank::reserve_balances (via verif_hooks), TokenBalances::entries_mut
+//@ bound=banks with exactly 2 token(s), balances < 2^8, numerator and denominator < 2^8 (any order, incl. 0); every entry read back; unwind 34
+//@ stubs=<u128 as MulDiv>::checked_mul_div (ruint U256; its division by a symbolic divisor does not finish in symbolic execution) is replaced by its specification floor(x*n/d) computed in u64 (defined for operands < 2^32; exactness of the real routine is C01); alloc::fmt::format, sol_log, CoreError::name, Display/to_string for CoreError / u64 / u128 do nothing
+//@ args=--default-unwind,34
+#[kani::proof]
+#[kani::stub(alloc::fmt::format, crate::stubs::fmt_format)]
+#[kani::stub(anchor_lang::solana_program::log::sol_log, crate::stubs::sol_log)]
+#[kani::stub(gmsol_store::CoreError::name, crate::stubs::core_error_name)]
+#[kani::stub(<gmsol_store::CoreError as std::fmt::Display>::fmt, crate::stubs::fmt_core_error)]
+#[kani::stub(<u128 as std::fmt::Display>::fmt, crate::stubs::fmt_u128)]
+#[kani::stub(u128::_fmt, crate::stubs::u128_fmt)]
+#[kani::stub(<u64 as std::fmt::Display>::fmt, crate::stubs::fmt_u64)]
+#[kani::stub(u64::_fmt, crate::stubs::u64_fmt)]
+#[kani::stub(<u128 as gmsol_model::num::MulDiv>::checked_mul_div, crate::stubs::mul_div_spec)]
+fn c37_reserve_never_increases_a_balance_2_tokens_w8() {
+    reserve_step(8, 2);
 }
 
 //@ prop=C37 tier=thorough kind=hold
-//@ enc=GtBank::reserve_balances (via verif_hooks), <u128 as MulDiv>::checked_mul_div (ruint U256), TokenBalances::entries_mut, GtBank::balances
-//@ bound=banks with 0..=2 tokens, balances < 2^16, numerator and denominator < 2^16 (any order, incl. 0), arbitrary probe token; unwind 34
-//@ stubs=alloc::fmt::format, sol_log, CoreError::name, Display for CoreError / u64 / u128 do nothing
+//@ enc=GtBank::reserve_balances (via verif_hooks), TokenBalances::entries_mut
+//@ bound=banks with exactly 1 token(s), balances < 2^16, numerator and denominator < 2^16 (any order, incl. 0); every entry read back; unwind 34
+//@ stubs=<u128 as MulDiv>::checked_mul_div (ruint U256; its division by a symbolic divisor does not finish in symbolic execution) is replaced by its specification floor(x*n/d) computed in u64 (defined for operands < 2^32; exactness of the real routine is C01); alloc::fmt::format, sol_log, CoreError::name, Display/to_string for CoreError / u64 / u128 do nothing
 //@ args=--default-unwind,34
 #[kani::proof]
 #[kani::stub(alloc::fmt::format, crate::stubs::fmt_format)]
@@ -504,10 +523,16 @@ fn c37_reserve_never_increases_a_balance_w8() {
 #[kani::stub(u128::_fmt, crate::stubs::u128_fmt)]
 #[kani::stub(<u64 as std::fmt::Display>::fmt, crate::stubs::fmt_u64)]
 #[kani::stub(u64::_fmt, crate::stubs::u64_fmt)]
-fn c37_reserve_never_increases_a_balance_w16() {
-    reserve_never_increases(16);
+#[kani::stub(<u128 as gmsol_model::num::MulDiv>::checked_mul_div, crate::stubs::mul_div_spec)]
+fn c37_reserve_never_increases_a_balance_1_token_w16() {
+    reserve_step(16, 1);
 }
 
+//@ prop=C37 tier=thorough kind=hold
+//@ enc=GtBank::reserve_balances (via verif_hooks), TokenBalances::entries_mut
+//@ bound=banks with exactly 2 token(s), balances < 2^16, numerator and denominator < 2^16 (any order, incl. 0); every entry read back; unwind 34
+//@ stubs=<u128 as MulDiv>::checked_mul_div (ruint U256; its division by a symbolic divisor does not finish in symbolic execution) is replaced by its specification floor(x*n/d) computed in u64 (defined for operands < 2^32; exactness of the real routine is C01); alloc::fmt::format, sol_log, CoreError::name, Display/to_string for CoreError / u64 / u128 do nothing
+//@ args=--default-unwind,34
 #[kani::proof]
 #[kani::stub(alloc::fmt::format, crate::stubs::fmt_format)]
 #[kani::stub(anchor_lang::solana_program::log::sol_log, crate::stubs::sol_log)]
@@ -517,6 +542,7 @@ fn c37_reserve_never_increases_a_balance_w16() {
 #[kani::stub(u128::_fmt, crate::stubs::u128_fmt)]
 #[kani::stub(<u64 as std::fmt::Display>::fmt, crate::stubs::fmt_u64)]
 #[kani::stub(u64::_fmt, crate::stubs::u64_fmt)]
-fn probe_reserve1() {
-    reserve_step(8, 1);
+#[kani::stub(<u128 as gmsol_model::num::MulDiv>::checked_mul_div, crate::stubs::mul_div_spec)]
+fn c37_reserve_never_increases_a_balance_2_tokens_w16() {
+    reserve_step(16, 2);
 }
